@@ -50,14 +50,12 @@ namespace awkward {
 
   int64_t
   TupleBuilder::length() const {
-    return length_;
+    return (length_ == -1 ? 0 : length_);
   }
 
   void
   TupleBuilder::clear() {
-    for (auto x : contents_) {
-      x.get()->clear();
-    }
+    contents_.clear();
     length_ = -1;
     begun_ = false;
     nextindex_ = -1;
